@@ -93,7 +93,7 @@ class Base:
                 # an array longer than the input was decoded completely: iterations are not bounded by the input size
                 raise Violation("work_bounded_by_input_size", {"loop": "array length beyond input decoded without underflow"})
             c.count("paths_with_array_longer_than_unrolling_bound")
-        obl = []
+        obl = [("never_consumes_more_than_it_was_given", src.past_end == 0)]
         if self.is_item:
             cons = src.consumed
             obl.append(("array_item_consumes_at_least_one_byte", cons >= 1))
